@@ -840,6 +840,24 @@ def _rest(ck, fa, R3, R4, R5, R6):
                     # object is written in place (that the scratch file cannot leak is C05.R5's obligation)
                     ok = _staged_onto_absent_object(ck, fi, n)
                     why = "object staged under a scratch name and moved onto a version path that is not there yet"
+                    if ok:
+                        # an object that appears under a version path without going through output() is an object of this store
+                        # like any other: unless the key already designates one, it becomes the object its key designates, so that
+                        # a later result with the same bytes is stored AS it (the dedupe test of R2 looks at the key) -- D52
+                        f2 = FA(ck, fi)
+                        links = [c for c in f2.calls("_write_non_versioned_link") if f2.nodes(c)]
+
+                        def _excused(conj):
+                            return all((not pol) and any(w in txt for w in ("exists", " is self", "self is ", " is None")) for (txt, pol) in conj)
+                        okl = False
+                        for c in links:
+                            conds = f2.conditions(f2.stmt_of(c))
+                            if conds and all(_excused(conj) for conj in conds):
+                                okl = True
+                        ck.ob("C07.R2", "%s::%s::registered-under-its-key" % (q, A.short(n, 50)), okl,
+                              "the object brought in is made the one its key designates when the key designates none" if okl else
+                              "%s puts an object under a version path but never writes the key's pointer for it: the next result that serializes "
+                              "to the same bytes does not find it and is stored a second time beside it" % q, A.loc(fi, n))
                 ck.ob(R5, "%s::%s" % (q, A.short(n, 50)), ok, why if ok else
                       "new write-mode open in the storage layer at %s (not one of the known write sites, and not a scratch file that is "
                       "moved onto a version path established to be absent): a stored object can be written in place" % q, A.loc(fi, n))
